@@ -12,6 +12,7 @@ import FemtoVerif.Driver.C19
 import FemtoVerif.Driver.C18
 import FemtoVerif.Driver.C05
 import FemtoVerif.Driver.C07
+import FemtoVerif.Driver.C06
 open Lean
 
 namespace Femto.Driver
@@ -43,6 +44,8 @@ def dispatch (op : String) (j : Json) : Except String Json :=
   | "c18.table" => C18.table j
   | "c05.dig" => C05.dig j
   | "c07.toolpath" => C07.toolpath j
+  | "ctl.tree" => C06.tree j
+  | "c06.depth" => C06.depth j
   | _ => .error s!"unknown op {op}"
 
 def handleLine (line : String) : String :=
